@@ -71,6 +71,15 @@ def canon(o):
     return o
 
 
+def load_corpus(stream):
+    """minimised cases kept in corpus/C03/<stream>_*.json ({"stream", "case", "why"})"""
+    out = []
+    for f in sorted(glob.glob(os.path.join(VERIF, 'corpus', 'C03', stream + '_*.json'))):
+        with open(f) as fh:
+            out.append(json.load(fh)['case'])
+    return out
+
+
 def has_nan(o):
     if isinstance(o, float):
         return o != o
@@ -398,17 +407,32 @@ class FieldStream(Stream):
                 kw.append([rng.choice(['bogus', 'gpu', 'Cpu']), compatible_extra(rng, cname)])
             extras = []
             for _e in range(rng.choice([0, 1, 1, 2, 3])):
-                key = rng.choice(['future', 'gpu_model', 'x', 'new-field', 'cpu2', 'zz', '_private', 'Lat', 'fpga', 'nic'])
+                key = rng.choice(['future', 'gpu_model', 'x', 'new-field', 'cpu2', 'zz', '_private', 'Lat', 'fpga', 'nic',
+                                  'accelerators', 'AAA', 'zz_future', '0first'])
                 val = compatible_extra(rng, cname) if rng.random() < 0.8 else gen_value(rng, 1, False)
-                extras.append([key, val, rng.randrange(100)])
+                # position among the keys of the text: first, last, or anywhere (the text is NOT re-sorted)
+                extras.append([key, val, rng.choice([0, 0, 9999, rng.randrange(100)])])
             if mode == 2:
                 extras.append(['forgiving', compatible_extra(rng, cname), 0])
             ukw = [[f, gen_field_value(rng, cname, f)] for f in rng.sample(fs, min(rng.choice([0, 1, 1, 2]), len(fs)))]
+            if mode in (8, 9, 10) and kw:
+                # update() that changes nothing: no kwargs at all, or kwargs repeating the values the object already has
+                # (scalar and list forms) -- the result must still be a NEW object sharing nothing with the original
+                ukw = [] if mode == 8 else [[k, copy.deepcopy(v)] for k, v in rng.sample(kw, rng.randrange(1, len(kw) + 1))]
             if mode == 3:
                 ukw.append(['bogus', compatible_extra(rng, cname)])
             if mode == 4 and ukw:
                 ukw[0][1] = gen_field_value(rng, cname, ukw[0][0], valid=False)
-            out.append({'cls': i, 'kw': kw, 'extras': extras, 'ukw': ukw, 'absent': rng.choice(['', 'None']) if mode == 5 else None})
+            fg = False
+            if mode in (6, 7):
+                # K(forgiving=True, ...): the keyword reaches _set_fields, unknown names are then skipped -- at any position,
+                # and the known names after them must still be set
+                fg = True
+                for _u in range(rng.choice([1, 1, 2])):
+                    kw.insert(rng.choice([0, 0, len(kw), rng.randrange(len(kw) + 1)]),
+                              [rng.choice(['accelerators', 'zz_future', 'gpu_mem', 'Bogus']), compatible_extra(rng, cname)])
+            out.append({'cls': i, 'kw': kw, 'extras': extras, 'ukw': ukw, 'absent': rng.choice(['', 'None']) if mode == 5 else None,
+                        'fg': fg})
         return out
 
     def corpus(self):
@@ -422,7 +446,7 @@ class FieldStream(Stream):
                 mk('Capacities', [('core', 2), ('ram', 0)], [('gpu', 3, 0)], [('disk', 10)]),
                 mk('Labels', [('vlan', []), ('local_name', '')], [('future', ['a'], 1)], [('vlan', ['1', '2'])]),
                 mk('CapacityHints', [('instance_type', '')]), mk('ReservationInfo', [('reservation_id', ['a', 1, None])]),
-                mk('StructuralInfo', [('adm_graph_ids', ['g1', 'g2'])], (), (), 'None')]
+                mk('StructuralInfo', [('adm_graph_ids', ['g1', 'g2'])], (), (), 'None')] + load_corpus('field')
 
     def textx(self, text, extras, absent):
         if absent is not None:
@@ -430,7 +454,7 @@ class FieldStream(Stream):
         d = list(json.loads(text).items()) if text else []
         for k, v, pos in extras:
             d = [(a, b) for a, b in d if a != k]
-            d.insert(pos % (len(d) + 1), (k, v))
+            d.insert(min(pos, len(d)) if pos in (0, 9999) else pos % (len(d) + 1), (k, v))
         return json.dumps(dict(d))
 
     def observe(self, case):
@@ -438,7 +462,7 @@ class FieldStream(Stream):
         kw = {k: copy.deepcopy(v) for k, v in case['kw']}
         o = {}
         try:
-            x = cls(**kw)
+            x = cls(forgiving=True, **kw) if case.get('fg') else cls(**kw)
         except Exception as e:
             return {'ctor': err(e)}
         o['ctor'] = canon(dict(x.__dict__))
@@ -472,6 +496,19 @@ class FieldStream(Stream):
             o['upd'] = err(e)
             o['upd_is_new'] = True
         o['mutated'] = (not same(canon(x.__dict__), canon(snap))) or (not same(canon(ukw), canon(usnap)))
+        # aliasing between the original and the result of update(): grow every list-valued field of the RESULT in
+        # place, then look at the ORIGINAL again
+        o['orig_after'] = None
+        if not is_err(o['upd']):
+            for f, v in y.__dict__.items():
+                if isinstance(v, list):
+                    v.append('ZZ')
+            o['orig_after'] = [canon(dict(x.__dict__)), x.to_json()]
+            # and overwrite every attribute of the result: the original must not notice
+            for f in list(y.__dict__.keys()):
+                y.__dict__[f] = 'overwritten'
+            o['orig_after_overwrite'] = [canon(dict(x.__dict__)), x.to_json()]
+            o['orig_before'] = [canon(snap), t]
         return o
 
     def to_coq(self, case, o):
@@ -479,9 +516,9 @@ class FieldStream(Stream):
             obs = [o['ctor']]
             textx = ''
         else:
-            obs = [o['ctor'], o['text'], o['dict'], o['dec'], o['reenc'], o['decx'], o['upd']]
+            obs = [o['ctor'], o['text'], o['dict'], o['dec'], o['reenc'], o['decx'], o['upd'], o['orig_after']]
             textx = o['textx']
-        return '((%s, %s, %s, %s), %s)' % (cnat(case['cls']), cobj([(k, v) for k, v in case['kw']]), cstr(textx),
+        return '((%s, %s, %s, %s, %s), %s)' % (cnat(case['cls']), cbool(bool(case.get('fg'))), cobj([(k, v) for k, v in case['kw']]), cstr(textx),
                                            cobj([(k, v) for k, v in case['ukw']]), cjson(obs))
 
     def oracle(self, case, o):
@@ -495,6 +532,15 @@ class FieldStream(Stream):
         if not o['upd_is_new']:
             return 'purity: %s.update returned the original object' % cn
         fresh = canon(dict(cls().__dict__))
+        if case.get('fg'):
+            want = dict(fresh)
+            for k, v in case['kw']:
+                if k in want:
+                    want[k] = v
+            if not same(x, canon(want)):
+                lost = [k for k in want if not same(x[k], canon(want)[k])]
+                return 'forward-compat: %s(forgiving=True, ...) with unknown names lost known field %s (%r)' % (
+                    cn, lost[0], [k for k, _ in case['kw']])
         t = o['text']
         nonev = [f for f in x if x[f] is None and fresh[f] is not None]
         tag = ' [None-valued field %s]' % nonev[0] if nonev else ''
@@ -527,6 +573,12 @@ class FieldStream(Stream):
             if o['decx'] is None or not same(o['decx'], base):
                 return 'forward-compat: %s known fields changed by unknown keys: %r vs %r' % (cn, o['decx'], base)
         u = o['upd']
+        if not is_err(u) and same(o['orig_after'], o['orig_before']) and not same(o['orig_after_overwrite'], o['orig_before']):
+            return 'purity: overwriting the attributes of the result of %s.update changed the original' % cn
+        if not is_err(u) and not same(o['orig_after'], o['orig_before']):
+            shared = [f for f in x if not same(o['orig_after'][0][f], x[f])]
+            return ('purity: %s.update result shares list-valued field %s with the original (growing it in place through the '
+                    'result changed the original to %r)' % (cn, shared[0] if shared else '?', o['orig_after'][1]))
         if not is_err(u):
             want = dict(x)
             for k, v in case['ukw']:
@@ -1151,10 +1203,11 @@ class MaintStream(Stream):
     name = 'maint'
     header = ('From Coq Require Import List ZArith NArith.\nImport ListNotations.\n'
               'From FIM Require Import Base.Str Base.Json Model.CodecField Model.CodecMisc Model.CodecChk.\n')
-    case_type = '(list mop * option (list N)) * json'
+    case_type = '(list mop2 * option (list N)) * json'
     check_fn = 'check_maint'
     shard = 100
-    rule = ('histories of add / rem / pop / get / finalize on one MaintenanceInfo (0-8 operations, names incl. empty and '
+    rule = ('histories of add / rem / pop / get / finalize on one MaintenanceInfo, in 45% followed by copy() and 1-4 operations on '
+            'the COPY with the ORIGINAL (entries and to_json) re-observed after each (0-8 operations, names incl. empty and '
             'non-ASCII, entries with every state incl. an unknown state name, naive / aware / microsecond / year 1 and 9999 '
             'datetimes given as datetime or ISO text), then to_json, from_json, re-encoding, an attempt to alter the decoded '
             '(finalized) record, and from_json of the text with extra node names / unknown entry fields / missing or '
@@ -1182,6 +1235,24 @@ class MaintStream(Stream):
                     ops.append(['get', nm])
             if rng.random() < 0.8:
                 ops.append(['fin'])
+            if rng.random() < 0.45:
+                # the documented route for changing a finalized record: copy(), change the copy -- then the ORIGINAL is
+                # observed again after every operation on the copy
+                ops.append(['copy'])
+                for _j in range(rng.choice([1, 2, 3, 4])):
+                    k = rng.randrange(6)
+                    nm = rng.choice(MNAMES)
+                    if k < 3:
+                        ops.append(['c', ['add', nm, rng.choice(['Active', 'PreMaint', 'Maint', 'Unknown']), rng.random() < 0.5,
+                                          gen_dt(rng), rng.random() < 0.5, gen_dt(rng), rng.random() < 0.5]])
+                    elif k == 3:
+                        ops.append(['c', ['rem', nm]])
+                    elif k == 4:
+                        ops.append(['c', ['pop', nm]])
+                    else:
+                        ops.append(['c', ['fin']])
+                if rng.random() < 0.3:
+                    ops.append(rng.choice([['rem', rng.choice(MNAMES)], ['get', rng.choice(MNAMES)], ['fin']]))
             x = None
             m = rng.randrange(12)
             if m == 0:
@@ -1201,7 +1272,7 @@ class MaintStream(Stream):
                 {'ops': [['add', 'n1', 'Maint', True, '2024-01-02T03:04:05+00:00', True, None, False], ['fin'], ['add', 'n2', 'Active', False, None, False, None, False],
                          ['rem', 'n1'], ['pop', 'n1'], ['get', 'n1']], 'x': ['field', 'reason', 'x']},
                 {'ops': [['add', 'n1', 'bogus', False, None, False, None, False], ['add', 'n1', 'Active', True, None, False, None, False], ['rem', 'zz'], ['pop', 'n1'], ['fin']],
-                 'x': ['node', 'zz-extra', {'state': 'Maint', 'deadline': None, 'expected_end': None}]}]
+                 'x': ['node', 'zz-extra', {'state': 'Maint', 'deadline': None, 'expected_end': None}]}] + load_corpus('maint')
 
     def entry(self, op):
         from fim.slivers.maintenance_mode import MaintenanceEntry, MaintenanceState
@@ -1236,27 +1307,46 @@ class MaintStream(Stream):
     def observe(self, case):
         from fim.slivers.maintenance_mode import MaintenanceInfo, MaintenanceEntry
         m = MaintenanceInfo()
+        cp = None
+
+        def text_of(x):
+            try:
+                return x.to_json()
+            except Exception as e:
+                return err(e)
+
+        def apply(target, op):
+            if op[0] == 'add':
+                e = self.entry(op)
+                entries.append(self.entry_view(e))
+                return target.add(op[1], e)
+            if op[0] == 'rem':
+                return target.rem(op[1])
+            if op[0] == 'pop':
+                return self.entry_view(target.pop(op[1]))
+            if op[0] == 'get':
+                r = target.get(op[1])
+                return None if r is None else self.entry_view(r)
+            return target.finalize()
         rets, views, entries = [], [self.info_view(m)], []
+        otexts = [text_of(m)]          # the original's encoding (or the exception) before / after every operation
+        cviews = [None]
         for op in case['ops']:
             try:
-                if op[0] == 'add':
-                    e = self.entry(op)
-                    entries.append(self.entry_view(e))
-                    r = m.add(op[1], e)
-                elif op[0] == 'rem':
-                    r = m.rem(op[1])
-                elif op[0] == 'pop':
-                    r = self.entry_view(m.pop(op[1]))
-                elif op[0] == 'get':
-                    r = m.get(op[1])
-                    r = None if r is None else self.entry_view(r)
+                if op[0] == 'copy':
+                    cp = m.copy()
+                    r = None
+                elif op[0] == 'c':
+                    r = None if cp is None else apply(cp, op[1])
                 else:
-                    r = m.finalize()
+                    r = apply(m, op)
             except Exception as e:
                 r = err(e)
             rets.append(r)
             views.append(self.info_view(m))
-        o = {'rets': rets, 'views': views, 'entries': entries}
+            otexts.append(text_of(m))
+            cviews.append(None if cp is None else self.info_view(cp))
+        o = {'rets': rets, 'views': views, 'entries': entries, 'otexts': otexts, 'cviews': cviews}
         try:
             o['text'] = m.to_json()
         except Exception as e:
@@ -1295,24 +1385,43 @@ class MaintStream(Stream):
         def centry(v):
             return '{| me_state := %s; me_deadline := %s; me_end := %s |}' % (
                 'None' if v['state'] is None else '(Some M%s)' % v['state'], costr(v['deadline']), costr(v['expected_end']))
-        ops = []
-        for op, r in zip(case['ops'], o['rets']):
+        def cop(op, r):
             if op[0] == 'add':
                 if is_err(r) and r['err'] not in ('MaintenanceModeException',):
                     raise RuntimeError('entry construction failed %r' % (op,))
                 # the entry is built before add() is called, so it exists even when add() raises
-                ops.append('MAdd %s %s' % (cstr(op[1]), centry(next(ents))))
-            elif op[0] == 'fin':
-                ops.append('MFinalize')
+                return 'MAdd %s %s' % (cstr(op[1]), centry(next(ents)))
+            if op[0] == 'fin':
+                return 'MFinalize'
+            return '%s %s' % ({'rem': 'MRem', 'pop': 'MPop', 'get': 'MGet'}[op[0]], cstr(op[1]))
+        ops = []
+        have_copy = False
+        for op, r in zip(case['ops'], o['rets']):
+            if op[0] == 'copy':
+                ops.append('M2Copy')
+                have_copy = True
+            elif op[0] == 'c':
+                if have_copy:
+                    ops.append('M2OnCopy (%s)' % cop(op[1], r))
+                else:
+                    ops.append('M2OnCopy MFinalize')      # no copy yet: a no-op on both sides
             else:
-                ops.append('%s %s' % ({'rem': 'MRem', 'pop': 'MPop', 'get': 'MGet'}[op[0]], cstr(op[1])))
-        obs = [o['rets'], o['views'][-1], o['text'], o.get('dec'), o.get('reenc'), o['decx']]
+                ops.append('M2Orig (%s)' % cop(op, r))
+        obs = [o['rets'], o['views'][-1], o['text'], o.get('dec'), o.get('reenc'), o['decx'], o['cviews'][-1]]
         return '((%s, %s), %s)' % (clist(ops), costr(o['textx']), cjson(obs))
 
     def oracle(self, case, o):
-        # a finalized record cannot be altered
+        # a finalized record cannot be altered -- neither directly nor through a copy of it
         for i, op in enumerate(case['ops']):
             before, after = o['views'][i], o['views'][i + 1]
+            if op[0] in ('copy', 'c'):
+                if not same(before, after) or not same(o['otexts'][i], o['otexts'][i + 1]):
+                    return ('aliasing: %s on a copy() changed the ORIGINAL MaintenanceInfo (%sfinalized): entries %r -> %r' % (
+                        'copy()' if op[0] == 'copy' else op[1][0], '' if before[1] else 'not ', [p[0] for p in before[0]],
+                        [p[0] for p in after[0]]))
+                if op[0] == 'copy' and (not same(o['cviews'][i + 1][0], before[0]) or o['cviews'][i + 1][1]):
+                    return 'copy: copy() is not an unfinalized record with the same entries'
+                continue
             if before[1]:
                 if not same(before, after):
                     return 'finalized: %s changed a finalized MaintenanceInfo' % op[0]
@@ -1349,10 +1458,13 @@ class MaintStream(Stream):
         return None
 
     def histogram(self, cases, obs):
-        h = {'ops': {}, 'op_errors': {}, 'finalized_at_end': 0, 'ops_after_finalize': 0, 'decx_errors': {}, 'entries_at_end': {}}
+        h = {'ops': {}, 'op_errors': {}, 'finalized_at_end': 0, 'ops_after_finalize': 0, 'decx_errors': {}, 'entries_at_end': {},
+             'histories_with_copy_of_finalized': 0}
         for c, o in zip(cases, obs):
+            h['histories_with_copy_of_finalized'] += any(op[0] == 'copy' and o['views'][i][1] for i, op in enumerate(c['ops']))
             for i, (op, r) in enumerate(zip(c['ops'], o['rets'])):
-                h['ops'][op[0]] = h['ops'].get(op[0], 0) + 1
+                name = op[0] if op[0] != 'c' else 'copy.' + op[1][0]
+                h['ops'][name] = h['ops'].get(name, 0) + 1
                 if is_err(r):
                     h['op_errors'][r['err']] = h['op_errors'].get(r['err'], 0) + 1
                 h['ops_after_finalize'] += bool(o['views'][i][1])
